@@ -242,6 +242,14 @@ fn main() {
             println!("--- model dump\n{}", dm.text());
             println!("--- equal: {}", d.lines == dm.lines);
         }
+        "transcript" => {
+            // C20 child: ops as a JSON array on stdin, transcript on stdout
+            let mut txt = String::new();
+            std::io::Read::read_to_string(&mut std::io::stdin(), &mut txt).expect("stdin");
+            let ops: Vec<String> = serde_json::from_str(&txt).expect("json ops");
+            exec::install_panic_hook();
+            print!("{}", props::c20::transcript(&ops));
+        }
         "exec" => {
             // run a case file in this very process (debugging)
             let path = args.get(2).expect("exec <file>");
